@@ -16,7 +16,8 @@ import (
 // val describes a variant value: K is the kind, the other fields carry the payload.
 type val struct {
 	K string `json:"k"`           // null int long float double string bool timespan datetime array object
-	I int64  `json:"i,omitempty"` // int, long, timespan (ns), datetime (unix ns), bool (0/1)
+	I int64  `json:"i,omitempty"` // int, long, timespan (ns), datetime (unix seconds), bool (0/1)
+	N int64  `json:"n,omitempty"` // datetime: nanoseconds within the second
 	F string `json:"f,omitempty"` // float, double as %b text (exact, NaN/Inf safe)
 	S string `json:"s,omitempty"`
 	A []val  `json:"a,omitempty"`
@@ -73,7 +74,7 @@ func vTime(t time.Time) val {
 	if t.Location() == time.Local {
 		z = "local"
 	}
-	return val{K: "datetime", I: t.UnixNano(), Z: z}
+	return val{K: "datetime", I: t.Unix(), N: int64(t.Nanosecond()), Z: z}
 }
 
 func b2i(b bool) int64 {
@@ -123,9 +124,9 @@ func (v val) toTime() time.Time {
 	case "zero":
 		return time.Time{}
 	case "local":
-		return time.Unix(0, v.I)
+		return time.Unix(v.I, v.N)
 	}
-	return time.Unix(0, v.I).UTC()
+	return time.Unix(v.I, v.N).UTC()
 }
 
 func (v val) String() string {
@@ -223,7 +224,7 @@ func fromVariant(v *variants.Variant) (out val) {
 
 // equalVal compares two descriptions; NaN equals NaN here (we compare representations, not arithmetic).
 func equalVal(a, b val) bool {
-	if a.K != b.K || a.I != b.I || a.F != b.F || a.S != b.S || len(a.A) != len(b.A) {
+	if a.K != b.K || a.I != b.I || a.N != b.N || a.F != b.F || a.S != b.S || len(a.A) != len(b.A) {
 		return false
 	}
 	if a.K == "datetime" && a.Z != b.Z && (a.Z == "zero" || b.Z == "zero") {
@@ -264,3 +265,9 @@ func makeVars(bs []binding) *variables.VariableCollection {
 	}
 	return vc
 }
+
+func time64(ns int64) time.Duration { return time.Duration(ns) }
+
+func unixUTC(sec, nsec int64) time.Time { return time.Unix(sec, nsec).UTC() }
+
+var _ = math.Pi
